@@ -1,7 +1,7 @@
 (* C17 — xarray export/import is lossless and uses cell centres as coordinates.
    ONLY statements, each closed by [exact] of a lemma proved in proofs/, followed by
    Print Assumptions. *)
-From DF Require Import Prelude Constants_gen Region Mesh Xarray C17_xarray C17_rebuild.
+From DF Require Import Prelude Constants_gen Region Mesh Xarray C17_xarray C17_rebuild Check_C17 C17_check.
 Open Scope Q_scope.
 
 (* the exported attributes, coordinate units, data, dtype, dimension names *)
@@ -344,3 +344,40 @@ Example C17_import_with_cell_nonvacuous : exists g, from_xarray ex_single = OK g
   pmin (reg (fmesh g)) = [5 - 2 / 2] /\ pmax (reg (fmesh g)) = [5 + 2 / 2] /\ n (fmesh g) = [1%Z].
 Proof. exact ex_single_import. Qed.
 Print Assumptions C17_import_with_cell_nonvacuous.
+
+(* soundness of the correspondence checker, exact regime: a case that evaluates to true certifies
+   that the recorded implementation output equals the model's (rationals up to ==, everything else
+   Leibniz); a passing rejection case certifies that the model rejects even with the tightened
+   spacing tolerance *)
+Theorem C17_check_export_sound : forall p1 p2 ds us tf_ n_ k vd dt un data unit_arg obs,
+  check_C17 (CExport true p1 p2 ds us tf_ n_ k vd dt un data unit_arg obs) = true ->
+  exists f, build_field p1 p2 ds us tf_ n_ k vd dt un data = OK f /\ da_eqv (to_xarray f unit_arg) obs.
+Proof. exact check_export_sound. Qed.
+Print Assumptions C17_check_export_sound.
+
+Theorem C17_check_import_sound : forall xa g,
+  check_C17 (CImport true xa (Some g)) = true ->
+  exists f, from_xarray_f fac_loose xa = OK f /\ field_eqv f g.
+Proof. exact check_import_sound. Qed.
+Print Assumptions C17_check_import_sound.
+
+Theorem C17_check_import_reject_sound : forall exact xa,
+  check_C17 (CImport exact xa None) = true -> is_ok (from_xarray_f fac_strict xa) = false.
+Proof. exact check_import_reject_sound. Qed.
+Print Assumptions C17_check_import_reject_sound.
+
+Theorem C17_check_round_sound : forall p1 p2 ds us tf_ n_ k vd dt un data g,
+  check_C17 (CRound true p1 p2 ds us tf_ n_ k vd dt un data (Some g)) = true ->
+  exists f f', build_field p1 p2 ds us tf_ n_ k vd dt un data = OK f /\
+               from_xarray_f fac_loose (to_xarray f None) = OK f' /\ field_eqv f' g.
+Proof. exact check_round_sound. Qed.
+Print Assumptions C17_check_round_sound.
+
+(* the bracket ties the checker's two evaluations to from_xarray itself: whatever the model accepts is
+   accepted unchanged with the loosened tolerance, and an acceptance with the tightened tolerance is
+   an acceptance of the model (so a passing rejection case never contradicts from_xarray) *)
+Theorem C17_check_bracket : forall (xa : dataarray) (g : field),
+  (from_xarray xa = OK g -> from_xarray_f fac_loose xa = OK g) /\
+  (from_xarray_f fac_strict xa = OK g -> from_xarray xa = OK g).
+Proof. exact bracket. Qed.
+Print Assumptions C17_check_bracket.
